@@ -294,7 +294,19 @@ def gen_test(r, attr, exotic):
 
 def gen_pred(r):
     k = r.weighted([("i", 5), ("last", 3), ("pe", 2), ("pnl", 1), ("le", 2), ("lg", 2), ("pll", 1), ("lm1", 1),
+                    # number-VALUED, neither literal nor position()/last(): positional by XPath 2.4
+                    ("sl", 2), ("dv", 1), ("ce", 1), ("ng", 1), ("cc", 2), ("cs", 3), ("sa", 2), ("nu", 2),
                     ("a", 4), ("c", 3), ("na", 2)])
+    if k == "sl":
+        return (k, (r.range(0, 2), r.range(0, 2)))
+    if k in ("dv", "ce"):
+        return (k, (r.range(0, 5), r.weighted([(1, 2), (2, 4), (3, 1), (0, 1)])))
+    if k == "ng":
+        return (k, r.range(0, 2))
+    if k in ("cc", "cs"):
+        return (k, r.choice(POOL["e"]))
+    if k in ("sa", "nu"):
+        return (k, r.choice(ANAMES))
     if k in ("i", "pe", "le"):
         return (k, r.weighted([(1, 5), (2, 4), (3, 1), (0, 1)]))
     if k == "lg":
@@ -359,6 +371,15 @@ def render_test(t):
 
 def render_pred(p):
     k, a = p
+    if k == "sl":
+        return "[%d+%d]" % a
+    if k == "dv":
+        return "[%d div %d]" % a
+    if k == "ce":
+        return "[ceiling(%d div %d)]" % a
+    if k in ("ng", "cc", "cs", "sa", "nu"):
+        return {"ng": "[-%s]", "cc": "[count(%s)]", "cs": "[count(../%s)]", "sa": "[string-length(@%s)]",
+                "nu": "[number(@%s)]"}[k] % a
     return {"i": "[%s]" % a, "last": "[last()]", "pe": "[position()=%s]" % a, "pnl": "[position()!=last()]",
             "le": "[last()=%s]" % a, "lg": "[last()>%s]" % a, "pll": "[position()<last()]", "lm1": "[last()-1]",
             "a": "[@%s]" % a, "c": "[%s]" % a, "na": "[not(@%s)]" % a}[k]
@@ -400,6 +421,10 @@ def tok_pred(p):
     k, a = p
     if k in ("i", "pe", "le", "lg"):
         return "%s%d" % (k, a)
+    if k in ("sl", "dv", "ce"):
+        return "%s.%d.%d" % (k, a[0], a[1])
+    if k in ("ng", "cc", "cs", "sa", "nu"):
+        return "%s.%s" % (k, a)
     if k in ("a", "c", "na"):
         return "%s.%s" % (k, a)
     return k
@@ -462,6 +487,10 @@ def shape_of(P):
         t = {"n": "N", "any": "*", "pl": "processing-instruction('N')", "q": "P:N", "w": "P:*"}.get(k) or render_test(s["test"])
         ps = ""
         for pk, pa in s["preds"]:
+            if pk in ("sl", "dv", "ce", "ng", "cc", "cs", "sa", "nu"):
+                ps += {"sl": "[K+K]", "dv": "[K div K]", "ce": "[ceiling(K div K)]", "ng": "[-K]", "cc": "[count(N)]",
+                       "cs": "[count(../N)]", "sa": "[string-length(@N)]", "nu": "[number(@N)]"}[pk]
+                continue
             ps += {"i": "[K]", "last": "[last()]", "pe": "[position()=K]", "pnl": "[position()!=last()]", "a": "[@N]",
                    "le": "[last()=K]", "lg": "[last()>K]", "pll": "[position()<last()]", "lm1": "[last()-1]",
                    "c": "[N]", "na": "[not(@N)]"}[pk]
